@@ -6,10 +6,41 @@ import (
 	"go/token"
 	"go/types"
 	"math/big"
+	"os"
+	"runtime"
+	"strconv"
 	"strings"
+	"sync/atomic"
+	"time"
 
 	"golang.org/x/tools/go/ssa"
 )
+
+// resource guard: a watchdog goroutine raises resourceAbort when the Go heap exceeds the limit; the interpreter
+// loop then abandons the current harness (an engine fault: inconclusive), instead of taking the machine down
+var resourceAbort atomic.Bool
+
+func memLimitMB() int {
+	if v, err := strconv.Atoi(os.Getenv("VERIF_MEM_LIMIT_MB")); err == nil && v > 0 {
+		return v
+	}
+	return 6000
+}
+
+func startResourceWatchdog() {
+	go func() {
+		var ms runtime.MemStats
+		for {
+			time.Sleep(500 * time.Millisecond)
+			runtime.ReadMemStats(&ms)
+			if ms.HeapAlloc > uint64(memLimitMB())<<20 {
+				resourceAbort.Store(true)
+			} else if resourceAbort.Load() && ms.HeapAlloc < uint64(memLimitMB())<<19 {
+				resourceAbort.Store(false)
+			}
+		}
+	}()
+}
 
 type Engine struct {
 	st   *Store
@@ -24,6 +55,7 @@ type Engine struct {
 	maxSymFork  int
 	skipStopOnce bool // vLoopStep: the first visit of the stop block is the loop entry, not its end
 	frames       []*Frame // call stack (vCallerLocal)
+	errN         int      // identities of error values created by errors.New / fmt.Errorf
 
 	// per harness run
 	H *HarnessRun
@@ -336,6 +368,9 @@ func (e *Engine) run(frp **Frame, s *State, blk, prev, stop *ssa.BasicBlock, phi
 		phis = nil
 		for _, in := range blk.Instrs[pi:] {
 			e.steps++
+			if e.steps&1023 == 0 && resourceAbort.Load() {
+				panic(unsupported("resource limit: the executor's heap exceeded %d MB while running this harness (term growth); harness abandoned", memLimitMB()))
+			}
 			switch i := in.(type) {
 			case *ssa.Jump:
 				prev, blk = blk, blk.Succs[0]
@@ -1011,7 +1046,43 @@ func (e *Engine) valueEq(x, y Value, t types.Type) *Term {
 		if a == b {
 			return e.st.True()
 		}
-		panic(unsupported("interface comparison"))
+		// a package-level error value of a foreign package (io.EOF, io.ErrUnexpectedEOF, ...) has an identity of
+		// its own: a constant derived from its name
+		externID := func(x *Iface) *Term {
+			if x.Val != nil || x.Dyn == nil {
+				return nil
+			}
+			name := x.Dyn.String()
+			if i := strings.Index(name, "extern:"); i >= 0 {
+				h := uint64(1469598103934665603)
+				for _, c := range []byte(name[i:]) {
+					h = (h ^ uint64(c)) * 1099511628211
+				}
+				return e.st.BVu(0x80000000|(h&0x7fffffff), 32)
+			}
+			return nil
+		}
+		if id := externID(b); id != nil {
+			if at, ok := a.Val.(*Term); ok && at.S == id.S {
+				return e.st.And(e.st.Not(e.ifaceNil(a)), e.st.Eq(at, id))
+			}
+			if id2 := externID(a); id2 != nil {
+				return e.st.Eq(id, id2)
+			}
+		}
+		if id := externID(a); id != nil {
+			if bt, ok := b.Val.(*Term); ok && bt.S == id.S {
+				return e.st.And(e.st.Not(e.ifaceNil(b)), e.st.Eq(bt, id))
+			}
+		}
+		if at, ok := a.Val.(*Term); ok && a.Dyn == b.Dyn {
+			if bt, ok2 := b.Val.(*Term); ok2 && at.S == bt.S {
+				// two opaque error values: equal iff both nil or both non-nil with the same identity
+				an, bn := e.ifaceNil(a), e.ifaceNil(b)
+				return e.st.Or(e.st.And(an, bn), e.st.And(e.st.Not(an), e.st.Not(bn), e.st.Eq(at, bt)))
+			}
+		}
+		panic(unsupported("interface comparison of %v (%T) with %v (%T)", a.Dyn, a.Val, b.Dyn, b.Val))
 	case *SliceV:
 		if y == nil {
 			return e.ptrEq(a.P, &Ptr{})
